@@ -432,6 +432,12 @@ theorem Verified.rejects_range (V : Verified c S) (v : σ) (hr : S.inRange v = f
   simp only [marshalOk, modelM, hr] at h
   exact coarse_isErr (by simpa using h)
 
+/-- Marshal never panics -/
+theorem Verified.marshal_total (V : Verified c S) (v : σ) : c.marshal v ≠ .panic := by
+  cases hr : S.inRange v with
+  | true => rw [V.layout v hr]; simp
+  | false => have := V.rejects_range v hr; intro h; simp [h, Res.isErr] at this
+
 /-- Unmarshal after Marshal is the identity, into any receiver -/
 theorem Verified.roundtrip (V : Verified c S) (v r : σ) (hr : S.inRange v = true) (he : S.exact v = true) :
     c.unmarshal r (render (S.layout v)) = ⟨.ok (), v⟩ := by
